@@ -84,8 +84,11 @@ type c17RunIn struct {
 	TailDelta int64 `json:"tailDelta"`
 }
 type c17Input struct {
-	Cfg    c17Cfg     `json:"cfg"`
-	Via    string     `json:"via"` // "coord" (default) | "plugin"
+	Cfg c17Cfg `json:"cfg"`
+	Via string `json:"via"` // "coord" (default) | "plugin"
+	// plugin mode: another instance of the same factory exists — "open": until the end, "closeEarly": closed as soon as
+	// the instance under test exists, "": none
+	Decoy  string     `json:"decoy,omitempty"`
 	Probes []string   `json:"probes"`
 	CKeys  []string   `json:"ckeys"`
 	Runs   []c17RunIn `json:"runs"`
@@ -558,6 +561,9 @@ func c17Gen(r *Rng, em *Emitter) c17Input {
 		in.Via = "coord"
 	}
 	plugin := in.Via == "plugin"
+	if plugin {
+		in.Decoy = []string{"open", "open", "closeEarly", ""}[r.Intn(4)]
+	}
 	in.Cfg.MinConfs = r.Range(-1, 3)
 	in.Cfg.Clean = 29_870_000_007
 	if r.Chance(30) {
@@ -949,6 +955,9 @@ func c17Gen(r *Rng, em *Emitter) c17Input {
 	}
 	em.Hit([]string{"kind:plain", "kind:adversarial", "kind:expiry"}[kind])
 	em.Hit("via:" + in.Via)
+	if plugin {
+		em.Hit("decoy:" + in.Decoy)
+	}
 	em.Hit(fmt.Sprintf("ops=%d", (len(ops)/5)*5))
 	em.Hit(fmt.Sprintf("minConfs=%d", in.Cfg.MinConfs))
 	em.Hit(fmt.Sprintf("ids=%d", len(ids)))
@@ -985,6 +994,7 @@ func c17Edge() []c17Input {
 	mkp := func(lockoutMs int64, minConfs int, ops []c17Op, perms ...[]int) c17Input {
 		in := mk(lockoutMs*int64(time.Millisecond), minConfs, 0, ops, perms...)
 		in.Via = "plugin"
+		in.Decoy = []string{"open", "closeEarly"}[len(ops)%2]
 		return in
 	}
 	h := func(b string, ids ...string) c17Op { return c17Op{T: "h", Block: b, Active: ids, Ids: ids} }
